@@ -2,7 +2,7 @@
 from fractions import Fraction
 
 from recipe_grid.compiler import compile as rg_compile
-from recipe_grid.lint import check
+from recipe_grid.lint import check, LintKind
 from recipe_grid.recipe import Ingredient, Step, Reference, SubRecipe, Quantity, Proportion
 from recipe_grid.units import UNIT_SYSTEM
 
@@ -16,9 +16,11 @@ LEVEL_TEXT = ("lint.py is modelled operation for operation on the binary64 layer
               "tied to lint.check by exact equality of the verdict lists on compiled descriptions and generated split-use programs, deliberately "
               "including sums that land on the 2% thresholds.")
 LEVEL_NOTE = ("Trusted: Lean kernel; model as far as correspondence exercises it; CPython float arithmetic/isclose = correctly rounded binary64 (validated per "
-              "case). The refinement lintF = lintQ away from thresholds is checked by the oracle, not proved. Known finding: exactly on a 2% threshold the "
+              "case). The refinement is a theorem away from the thresholds (lintF_eq_lintQ_off_threshold: if every group is off the 2% thresholds by "
+              "(2n+15) units roundoff the binary64 verdicts equal the exact ones, for any number of uses; floatSum_err) for uses whose conversion factor is the "
+              "same in both layers; elsewhere it is checked by the oracle. Known finding: exactly on a 2% threshold the "
               "binary64 verdict depends on rounding and so on the scale.")
-LEAN_MODULES = ["RecipeGrid.Props.C20"]
+LEAN_MODULES = ["RecipeGrid.Props.C20", "RecipeGrid.Props.C20b"]
 SOURCES = ["recipe_grid/lint.py", "recipe_grid/scripts/recipe_grid_lint.py"]
 RULE = ("split-use programs: a definition (ingredient with/without quantity and unit, processed ingredient, multi-ingredient step, explicit '=' / ':=' names, "
         "multi-output) followed by 1-4 uses as quantities (same, convertible, incompatible, unknown units), fractions, percentages, '*' and remainder forms in "
@@ -293,6 +295,77 @@ def check_sources(texts, factors):
     return out
 
 
+def run_cli(argv):
+    """the recipe-grid-lint entry point, in process: (exit status, stdout lines)"""
+    import contextlib
+    import io
+    import sys
+    from recipe_grid.scripts import recipe_grid_lint
+    buf = io.StringIO()
+    old = sys.argv
+    sys.argv = ["recipe-grid-lint"] + list(argv)
+    try:
+        with contextlib.redirect_stdout(buf), contextlib.redirect_stderr(io.StringIO()):
+            try:
+                recipe_grid_lint.main()
+                code = 0
+            except SystemExit as e:
+                code = e.code if isinstance(e.code, int) else (0 if e.code is None else 1)
+    finally:
+        sys.argv = old
+    return code, [l for l in buf.getvalue().splitlines() if l.strip()]
+
+
+def md_of(texts):
+    return "# T\n\n" + "\n\ntext\n\n".join("\n".join("    " + l for l in t.split("\n")) for t in texts) + "\n"
+
+
+def check_cli(files, ignore):
+    """files: list of source lists (one Markdown file each, or the string 'BROKEN'); the command's exit status is non-zero
+    exactly if some file has a finding that is not ignored (or does not compile) and every such finding is printed"""
+    import tempfile
+    import shutil as _sh
+    import os
+    from recipe_grid.markdown import compile_markdown
+    out = []
+    scratch = tempfile.mkdtemp(prefix="rg-c20-")
+    try:
+        paths, want_lines, near = [], 0, False
+        for i, texts in enumerate(files):
+            pth = os.path.join(scratch, "r%d.md" % i)
+            doc = "# T\n\n    x = 1 egg\n    x = 2 eggs\n" if texts == "BROKEN" else md_of(texts)
+            open(pth, "w").write(doc)
+            paths.append(pth)
+            if texts == "BROKEN":
+                want_lines += 1
+                continue
+            try:
+                rs = compile_markdown(doc).recipes
+            except Exception:
+                want_lines += 1
+                continue
+            kinds = []
+            for r in rs:
+                exp = lint_exact(r)
+                near = near or any(n for _, n in exp[1])
+                kinds += exp[0]
+            want_lines += len([k for k in kinds if k not in ignore])
+        argv = paths[:]
+        if ignore:
+            argv = ["--ignore"] + list(ignore) + ["--"] + argv
+        code, lines = run_cli(argv)
+        lines = [l for l in lines if any(l.startswith(pth + ": Warning: ") or l.startswith(pth + ": Error: ") for pth in paths)]
+        if near:
+            return out
+        if (code != 0) != (want_lines > 0):
+            out.append(("C20:command-exit-status-wrong", "files %r ignore %r: exit %r, %d findings expected; printed %r" % (files, ignore, code, want_lines, lines[:4])))
+        elif len(lines) != want_lines:
+            out.append(("C20:command-findings-not-all-printed", "files %r ignore %r: %d lines printed, %d findings expected: %r" % (files, ignore, len(lines), want_lines, lines[:4])))
+        return out
+    finally:
+        _sh.rmtree(scratch, ignore_errors=True)
+
+
 CORPUS = [["20.0 g x\nf(9.8 g x, 9.8 g x)"], ["0g flour\nmix(1/2 of flour, 1/2 of flour)"], ["0 g flour\nmix(1 g flour, 1 g flour)"],
           ["1 egg\nmeal = fry(1/2 of egg), serve\nx = boil(1/2 of egg)\neat(1/2 of meal, 1/2 of x)"], ["1 egg\nfry(eggs, oil)"],
           ["2 eggs\nfry(1/2 of the eggs)\nboil(remaining eggs)"], ["500 g flour\nmix(250 g flour)\nbake(0.25 kg flour)"],
@@ -316,10 +389,28 @@ def oracle(run):
             if sig not in seen:
                 seen.add(sig)
                 run.violate(sig, detail, {"sources": list(t), "factors": [repr(f) for f in factors]})
+    # the command-line wrapper: exit status and printed findings over several files, with --ignore
+    kinds_all = [k.name for k in LintKind]
+    clean = [["1 egg\nfry(egg)"], ["2 eggs\nfry(1/2 of the eggs)\nboil(remaining eggs)"]]
+    dirty = [t for t in srcs[:60]]
+    for i in range(run.budget(40, 600)):
+        n = rng.choice([1, 1, 2, 3])
+        files = [rng.choice(dirty if rng.random() < 0.6 else clean) if rng.random() < 0.93 else "BROKEN" for _ in range(n)]
+        if i % 5 == 0 and n > 1:
+            files[-1] = rng.choice(clean)            # a finding in an earlier file must not be forgotten
+        ignore = rng.sample(kinds_all, rng.choice([0, 0, 1, 2, 3]))
+        run.case(("cli", repr(files), tuple(ignore)), True, kind="cli")
+        for sig, detail in check_cli(files, ignore):
+            run.violate(sig, detail, {"cli_files": files, "ignore": ignore})
 
 
 def replay(run, obj):
     r = obj["replay"]
+    if "cli_files" in r:
+        res = check_cli(r["cli_files"], r["ignore"])
+        for x in res:
+            print(*x)
+        return bool(res)
     res = check_sources(r["sources"], [eval(f, {"Fraction": Fraction}) for f in r["factors"]])
     for x in res:
         print(*x)
